@@ -962,8 +962,8 @@ func main() {
 	debug.SetGCPercent(400) // the race build allocates heavily; memory use stays small
 	r := lib.Start("C17", "exploration")
 	r.SetRule("a case is a chunk list (offset,size,mtime,list order; plain/gzip/encrypted chunks; FileId string or Fid struct) plus a file size; " +
-		"bounded-exhaustive: every ordered tuple of <=3 (thorough: <=4) chunks over offsets 0..7 x sizes 1..4 with the tuple order as overlay (mtime) order, " +
-		"plus a seeded sample of 4-chunk tuples, seeded random lists of <=40 chunks over offsets 0..4095 and one list of 10 550 chunks for the real MaybeManifestize; " +
+		"bounded-exhaustive: every ordered tuple of <=3 chunks over offsets 0..7 x sizes 1..4 with the tuple order as overlay (mtime) order, " +
+		"plus a seeded sample of 4-chunk tuples (quick 4 000, thorough 200 000), seeded random lists of <=40 chunks over offsets 0..4095 and (thorough) one list of 10 403 chunks for the real MaybeManifestize; " +
 		"every window [a,b) of small files / 200 random windows of large ones. distinct = distinct (file size, chunk offsets, sizes, mtimes, encodings in list order); " +
 		"non-trivial = at least two chunks overlap or the file has a hole")
 	r.Assume("chunk modification times within one list are distinct (for equal mtimes 'newest' is not defined by the statement)")
@@ -1037,6 +1037,9 @@ func main() {
 				h := sha1.Sum([]byte(fmt.Sprintf("plan/%d/%s/%d/%d", r.Seed, j.kind, j.L, j.idx)))
 				sel := int(h[0]) | int(h[1])<<8
 				pl := plan{b: sel%32 == 0, c: sel%64 == 1, manifest: sel%128 == 2}
+				if r.Thorough() && j.L == 4 {
+					pl = plan{b: sel%128 == 0, c: sel%256 == 1, manifest: sel%512 == 2}
+				}
 				if j.L <= 2 {
 					pl = plan{b: sel%8 == 0, c: sel%16 == 1, manifest: sel%32 == 2}
 				}
@@ -1066,19 +1069,12 @@ func main() {
 	}
 	full("exh1", 1, 8, 4)
 	full("exh2", 2, 8, 4)
-	if r.Quick() {
-		full("exh3r", 3, 6, 3) // reduced space: offsets 0..5 x sizes 1..3
-		if os.Getenv("VERIF_C17_MAXL") == "" {
-			sample("exh3", 3, 3000)
-			sample("exh4", 4, 2000)
-		}
-		r.Note("bounded_exhaustive", "every ordered tuple of <=2 chunks over offsets 0..7 x sizes 1..4 and of 3 chunks over offsets 0..5 x sizes 1..3; level A on every window of every list")
-	} else {
-		full("exh3", 3, 8, 4)
-		sample("exh4", 4, 150000)
-		r.Note("bounded_exhaustive", "every ordered tuple of <=3 chunks over offsets 0..7 x sizes 1..4; level A on every window of every list")
+	full("exh3", 3, 8, 4)
+	if os.Getenv("VERIF_C17_MAXL") == "" {
+		sample("exh4", 4, r.Pick(4000, 200000))
 	}
-	nRandom := r.Pick(40, 1500)
+	r.Note("bounded_exhaustive", "every ordered tuple of <=3 chunks over offsets 0..7 x sizes 1..4; level A on every window of every list")
+	nRandom := r.Pick(60, 1500)
 	if v := os.Getenv("VERIF_C17_NRANDOM"); v != "" { // development aid only
 		fmt.Sscan(v, &nRandom)
 	}
